@@ -127,11 +127,8 @@ def cmp_batch(expect, r):
             nos = "no solution" in x["msg"].lower()
             if nos != (m["msg"]["err"]["outcome"] == "ValueError:nosolution"):
                 return f"{e['key']}: error kind differs"
-            # the entry carries THE message of the first broken rule (order of the checks)
-            from props.c09 import category
-            cat, det = category(x["msg"]), m["msg"]["err"].get("detail", "")
-            if not nos and cat and cat != "empty" and not det.startswith(("min of empty", "max of empty")) and det and cat != det:
-                return f"{e['key']}: first reported rule: implementation '{cat}', model '{det}'"
+            # WHICH broken rule a game with several defects reports first is not part of the property (the entry
+            # must carry the message the solo solve raises, which `judge` checks): not compared with the model
         if kind == "solved":
             o = {"outcome": "ok", "res": [x["final_strategies"], x["reachability_strategies"], x["rewards"], x["probabilities"],
                                            x["n_iterations_reach"], x["n_iterations_rew"], x["prob_min_rew"], x["rew_min_reach"]]}
